@@ -46,6 +46,30 @@ def render() -> str:
         for s in lits:
             if not _has_str(mod, s):
                 raise TranslatorError(f"{rel}: literal {s!r} not found any more")
+    # behaviours the model relies on since the fixes of F10a/F10b/F10c
+    ppm = _parse("core/postprocess_manager.py")
+    n_ruff = sum(1 for n in ast.walk(ppm) if isinstance(n, ast.Constant) and n.value == "ruff")
+    n_nocache = sum(1 for n in ast.walk(ppm) if isinstance(n, ast.Constant) and n.value == "--no-cache")
+    if n_ruff == 0 or n_ruff != n_nocache:
+        raise TranslatorError(f"core/postprocess_manager.py: {n_ruff} ruff invocations but {n_nocache} '--no-cache' "
+                              "arguments (the model assumes post-processing creates no cache directory)")
+    gm = None
+    for n in ast.walk(_parse("emitters/models_emitter.py")):
+        if isinstance(n, ast.FunctionDef) and n.name == "_generate_model_file":
+            gm = n
+    if gm is None:
+        raise TranslatorError("emitters/models_emitter.py: _generate_model_file not found")
+    for h in (x for x in ast.walk(gm) if isinstance(x, ast.ExceptHandler)):
+        if not isinstance(h.body[-1], ast.Raise):
+            raise TranslatorError("emitters/models_emitter.py: an except handler of _generate_model_file does not re-raise "
+                                  "(the model assumes a failed model write propagates)")
+    gen = None
+    for n in ast.walk(_parse("generator/client_generator.py")):
+        if isinstance(n, ast.FunctionDef) and n.name == "generate":
+            gen = n
+    if gen is None or not any(isinstance(x, ast.Attribute) and x.attr == "isidentifier" for x in ast.walk(gen)):
+        raise TranslatorError("generator/client_generator.py: generate() no longer validates the package names with "
+                              "str.isidentifier (the model rejects non-identifier components before any path is computed)")
     for rel in ("emitters/client_emitter.py", "emitters/mocks_emitter.py"):
         mod = _parse(rel)
         ok = False
